@@ -42,17 +42,23 @@ def classify_exception(e):
     return Outcome("exception", exc=e, where=where)
 
 
-def solve(game, prune, sweeps=None, copy=True):
+class SkipSolve(BaseException):
+    """Raised by an on_reward_phase callback: the case is outside what the check explores."""
+
+
+def solve(game, prune, sweeps=None, copy=True, on_reward_phase=None):
     """StochasticGame(**game, prune_states=prune).solve() on a copy, under a sweep budget."""
     r = repo()
     g = copy_game(game) if copy else game
     n = len(game["players"]) if hasattr(game.get("players"), "__len__") else 1
-    with sweep_budget(r.tad, sweeps, n) as shim:
+    with sweep_budget(r.tad, sweeps, n, on_reward_phase=on_reward_phase) as shim:
         try:
             res = r.tad.StochasticGame(prune_states=prune, **g).solve()
             return Outcome("ok", result=res, sweeps=shim.sweeps)
         except BudgetExceeded as e:
             return Outcome("budget", exc=e, sweeps=shim.sweeps)
+        except SkipSolve as e:
+            return Outcome("skipped", exc=e, sweeps=shim.sweeps)
         except RecursionError as e:
             return Outcome("exception", exc=e, where=innermost_repo_frame(e))
         except Exception as e:
